@@ -5,9 +5,9 @@ Derived from the property statement (and DESIGN.md C12), not from dumpparser.py:
   a page of the dump is stored iff
     - its namespace id is one of the selected ids, and
     - its title does not end in "/documentation" and does not contain "/testcases", and
-    - it is a redirect, or its content model is wikitext, Scribunto or json;
+    - its content model is wikitext, Scribunto or json (redirect pages included: no exception in the statement);
   it is stored under its own title and namespace id, with its model, its redirect target,
-  and its exact text -- for pages of the Template namespace the includable part of the text;
+  and its exact text -- for wikitext pages of the Template namespace the includable part of the text;
   when a (title, namespace) occurs more than once the last stored occurrence wins;
   the four helper templates  !  =  ((  ))  exist afterwards (added when the dump did not
   provide them).
@@ -38,7 +38,9 @@ def exclusion_reason(page, selected):
         return "documentation"
     if "/testcases" in t:
         return "testcases"
-    if page.get("redirect") is None and page["model"] not in KEPT_MODELS:
+    # "excluding ... non-wikitext/Scribunto/json content models": the statement makes no exception for redirect pages
+    # (a css/javascript redirect, e.g. MediaWiki:Gadget-old.css -> MediaWiki:Gadget-a.css, IS a page with an excluded model)
+    if page["model"] not in KEPT_MODELS:
         return "model"
     return None
 
@@ -61,7 +63,10 @@ def expected_table(pages, selected, template_prefix, base=None, defaults=True):
             # the text of a redirect page is "#REDIRECT [[target]]"; the store keeps the target in
             # redirect_to -- the statement does not say whether the text is kept too: both accepted
             body, alt = None, p["text"]
-        elif p["ns"] == TEMPLATE_NS:
+        elif p["ns"] == TEMPLATE_NS and p["model"] == "wikitext":
+            # "templates reduced to their includable part": a wikitext notion (comments, <noinclude>, <onlyinclude>,
+            # <includeonly>); a json / Scribunto page that lives in the Template namespace is data or code, not a
+            # template text, and keeps its exact text like every other page ("No page is ... altered")
             body = alt = includable(p["text"])
         else:
             body = alt = p["text"]
@@ -180,6 +185,14 @@ def diff(pages, table, reasons, stored):
             continue
         e, g = table[k], stored[k]
         if e["default"] is not None:
+            p = by_key_last.get(k)
+            if p is not None and reasons.get(p["uid"]) is not None:
+                # a page of the dump with the helper's title must not be stored (excluded), yet the row under that
+                # title is not the default helper: the excluded page was stored and took the helper's place
+                out.append({"rule": "excluded-page-stored(%s)" % reasons.get(p["uid"]), "key": k, "uids": [p["uid"]],
+                            "detail": "page %r must not be stored (%s) but is (in place of the default helper template): %r" % (
+                                k, reasons.get(p["uid"]), _short(g))})
+                continue
             out.append({"rule": "default-template-altered", "key": k, "uids": [],
                         "detail": "default %r stored as %r" % (k, _short(g))})
             continue
